@@ -51,9 +51,16 @@ def _case(draw):
                 b["motion"]["c0"] = sh.tolist()
             else:
                 b["r"] = sh.tolist()
-        spec["bodies"] = bs
         off = draw(st.booleans())
         spec["tpi"] = {"B1": draw(gen.vec3(-2, -0.7)) if off else [0.0] * 3, "B2": draw(gen.vec3(-2, -0.7)) if off else [0.0] * 3}
+        if draw(st.integers(0, 3)) == 0:
+            # the second point sits on a cross-section of a Cosserat rod (any formulation, 1-3 elements)
+            from harness import rodbuild
+            rs = draw(rodbuild.rod_spec(max_nel=3, allow_constraints=False))
+            rs["r0"] = (0.5 * d + np.array(rs["r0"]) * 0.3).tolist()
+            bs[1] = {"kind": "rod", "rod": rs}
+            spec["tpi"]["xi2"] = draw(st.sampled_from([0.0, 1.0, 0.5, draw(gen.f(0.0, 1.0))]))
+        spec["bodies"] = bs
     else:
         b1 = draw(st.one_of(build.rigid_body(), build.frame_body(moving=False, rotating=False)))
         if b1["kind"] == "rigid":
@@ -63,6 +70,8 @@ def _case(draw):
                          "angle0": draw(st.sampled_from([0.0, None, None])) or draw(gen.f(-6.2, 6.2)),
                          "r_OJ0": [draw(gen.f(-1, 1)) for _ in range(3)] if draw(st.booleans()) else None,
                          "psi_J": draw(gen.rotvec(min_exp=-2, near_max=False)) if draw(st.booleans()) else None}
+    # a second assembly of the finished system must leave everything as it is
+    spec["assemble_twice"] = draw(st.booleans())
     if draw(st.integers(0, 3)) == 0:
         # history: the interaction is assembled first, the system is given a new initial configuration (body 2 rotated
         # about the joint axis / moved rigidly), and only then the force law is attached and the system re-assembled
@@ -97,6 +106,8 @@ def _build_with_restart(spec):
 
     bare = {k: v for k, v in spec.items() if k not in ("element", "restart")}
     bare["load"] = {"type": "Force", "f0": [0.0, 0.0, 0.0]}  # build_case needs one element; a zero force is inert
+    if spec["bodies"][-1]["kind"] == "rod":
+        bare["load"]["xi"] = 0.5
     system, _, inter = c08.build_case(bare)
     rs = spec["restart"]
     body2 = inter.subsystem2
@@ -110,6 +121,11 @@ def _build_with_restart(spec):
         else:
             psi = np.array(rs["psi"], dtype=float)
             R, b = gen._exp(psi), np.array(rs["b"], dtype=float)
+        if spec["bodies"][-1]["kind"] == "rod":
+            from harness import rodbuild
+            q0[body2.qDOF] = rodbuild.rigid_motion(spec["bodies"][-1]["rod"], ql, psi, b)
+            ql = None
+    if len(body2.q0) and ql is not None:
         new = ql.copy()
         new[:3] = R @ ql[:3] + b
         if len(ql) == 7:
@@ -134,6 +150,8 @@ def check(spec):
         system, el, inter = _build_with_restart(spec)
     else:
         system, el, inter = c08.build_case(spec)  # an exception from repository code here is a failure ('raises')
+    if spec.get("assemble_twice"):
+        sysbuild.assemble(system)
     t0, q0, u0 = system.t0, system.q0, system.u0
     k = spec["element"]["k"]
     l0 = abs(float(inter.l(t0, q0[inter.qDOF])))
